@@ -83,6 +83,11 @@ func (vValidator) Select(key string, vals [][]byte) (int, error) {
 
 func vNSValidator() record.Validator { return record.NamespacedValidator{"v": vValidator{}} }
 
+// vNSValidatorPK additionally validates /pk records with the real public-key validator.
+func vNSValidatorPK() record.Validator {
+	return record.NamespacedValidator{"v": vValidator{}, "pk": record.PublicKeyValidator{}}
+}
+
 func vDatastore() ds.Batching { return dssync.MutexWrap(ds.NewMapDatastore()) }
 
 // vAddr builds a multiaddr of exactly `length` encoded bytes (length 8 or >= 12), distinct per id.
